@@ -22,10 +22,24 @@
 //!         the other flavour's file and `--bisect-with OTHER_BINARY` names the
 //!         first differing tuple; `--entry NAME` dumps one entry's stream.
 //!
+//! Extension (coverage audit): besides the `-> Result` functions the catalogue
+//! holds everything public that can be handed an out-of-range / overflowing
+//! value and is not documented to panic: `saturating_*` (pinned to the
+//! documented identity "the `checked_*` result, else MIN / MAX"; exact `i128`
+//! for `SignedDuration`), `wrapping_*` and the wrapping operators of `Time` and
+//! `Weekday` (`Weekday`: exact modulo-7 oracle), `a - b` of two datetimes
+//! ("never panics or fails"), `duration_until/since`, infallible conversions
+//! and accessors at the limits, `From` / `TryFrom` impls, `Display` / `Debug`,
+//! transition iterators, and the limit instants / datetimes in EVERY bundled
+//! zone. Documented panics are excluded by name (`catalogue::excluded()`), the
+//! panicking setters are run on the inputs their documentation allows and the
+//! other inputs are counted. A source scan (`scan_api_items`, `--list-api`)
+//! reports API items that are neither catalogued nor excluded.
+//!
 //! Sections are entry names, so `--section <entry> --only-case <case>` replays
 //! one tuple.
 //!
-//! Extra command line: `--list`, `--entry NAME`, `--digests PATH`,
+//! Extra command line: `--list`, `--list-api`, `--entry NAME`, `--digests PATH`,
 //! `--compare PATH`, `--bisect-with BINARY`.
 
 use rayon::prelude::*;
@@ -174,7 +188,12 @@ fn run_entry(r: &Report, e: &Entry) -> Tally {
                     Kind::Bad(why) => {
                         t.bad += 1;
                         let case = (e.case)(i);
-                        r.viol(&e.name, &format!("{}/ok-out-of-range{}", e.name, input_class(&case)), case, format!("{}: Ok({})", why, &buf[2..]));
+                        // `[class] text`: a documented-result mismatch with its own failure class
+                        let (class, text) = match why.strip_prefix('[').and_then(|x| x.split_once("] ")) {
+                            Some((tag, rest)) => (tag.to_string(), rest.to_string()),
+                            None => ("ok-out-of-range".to_string(), why.clone()),
+                        };
+                        r.viol(&e.name, &format!("{}/{}{}", e.name, class, input_class(&case)), case, format!("{}: Ok({})", text, &buf[2..]));
                     }
                 }
             }
@@ -257,6 +276,125 @@ fn scan_public_result_fns(repo: &str) -> BTreeSet<String> {
     out
 }
 
+/// Every public API item of the same files that can be handed an out-of-range
+/// or overflowing value: `pub fn` returning `Result<` / `Option<`, `pub fn
+/// saturating_*` / `wrapping_*`, and the trait impls `Add/Sub/Mul/Div/Neg`
+/// (+`Assign`), `Sum`, `TryFrom`, and `From` into a value type. Items are spelled `Type::fn`,
+/// `Type::op(Rhs)`, `Target::try_from(Source)`.
+fn scan_api_items(repo: &str) -> BTreeSet<String> {
+    let files = [
+        "civil/date.rs",
+        "civil/time.rs",
+        "civil/datetime.rs",
+        "civil/iso_week_date.rs",
+        "civil/weekday.rs",
+        "timestamp.rs",
+        "zoned.rs",
+        "span.rs",
+        "signed_duration.rs",
+        "tz/offset.rs",
+        "tz/timezone.rs",
+        "tz/ambiguous.rs",
+    ];
+    fn clean(t: &str) -> String {
+        let t = t.trim().trim_start_matches("&'a ").trim_start_matches("&'b ").trim_start_matches('&');
+        let t = t.split('<').next().unwrap_or(t);
+        match t {
+            "std::time::SystemTime" => "SystemTime".to_string(),
+            "std::time::Duration" => "std::Duration".to_string(),
+            _ => t.rsplit("::").next().unwrap_or(t).to_string(),
+        }
+    }
+    let mut out = BTreeSet::new();
+    for f in files {
+        let Ok(src) = std::fs::read_to_string(format!("{}/src/{}", repo, f)) else { continue };
+        let mut ty = String::from("?");
+        let mut in_block_comment = false;
+        let mut in_tests = false;
+        let lines: Vec<&str> = src.lines().collect();
+        for (i, l) in lines.iter().enumerate() {
+            if l.trim_start().starts_with("/*") {
+                in_block_comment = true;
+            }
+            if in_block_comment {
+                if l.contains("*/") {
+                    in_block_comment = false;
+                }
+                continue;
+            }
+            if l.starts_with("mod tests") {
+                in_tests = true;
+            }
+            if in_tests {
+                continue;
+            }
+            if l.starts_with("impl") {
+                let head = l.trim_end_matches('{').trim();
+                // strip the impl's own generics
+                let head = if head.starts_with("impl<") { head.splitn(2, "> ").nth(1).unwrap_or(head) } else { head.trim_start_matches("impl ") };
+                if let Some((tr, target)) = head.split_once(" for ") {
+                    let target = clean(target);
+                    let tr = tr.trim_start_matches("core::ops::").trim_start_matches("core::iter::");
+                    let (name, arg) = match tr.split_once('<') {
+                        Some((n, a)) => (n, Some(a.trim_end_matches('>'))),
+                        None => (tr, None),
+                    };
+                    let op = match name {
+                        "Add" => Some("add"),
+                        "Sub" => Some("sub"),
+                        "Mul" => Some("mul"),
+                        "Div" => Some("div"),
+                        "AddAssign" => Some("add_assign"),
+                        "SubAssign" => Some("sub_assign"),
+                        "MulAssign" => Some("mul_assign"),
+                        "DivAssign" => Some("div_assign"),
+                        _ => None,
+                    };
+                    if let Some(op) = op {
+                        let rhs = arg.map(clean).unwrap_or_else(|| target.clone());
+                        out.insert(format!("{}::{}({})", target, op, rhs));
+                    } else if name == "Neg" {
+                        out.insert(format!("{}::neg", target));
+                    } else if name == "Sum" {
+                        out.insert(format!("{}::sum", target));
+                    } else if name == "From"
+                        && ["Date", "Time", "DateTime", "ISOWeekDate", "Timestamp", "Zoned", "Span", "SignedDuration", "Offset", "SystemTime", "std::Duration"]
+                            .contains(&target.as_str())
+                    {
+                        out.insert(format!("{}::from({})", target, arg.map(clean).unwrap_or_default()));
+                    } else if name == "TryFrom" {
+                        let shown = if target == "UnsignedDuration" || target == "Duration" { "std::Duration".to_string() } else { target.clone() };
+                        out.insert(format!("{}::try_from({})", shown, arg.map(clean).unwrap_or_default()));
+                    }
+                    ty = target;
+                } else {
+                    ty = clean(head);
+                }
+            }
+            let t = l.trim_start();
+            if t.starts_with("pub fn ") || t.starts_with("pub const fn ") {
+                let mut sig = String::new();
+                let mut j = i;
+                while j < lines.len() {
+                    sig.push_str(lines[j].trim());
+                    sig.push(' ');
+                    if lines[j].contains('{') || lines[j].trim_end().ends_with(';') {
+                        break;
+                    }
+                    j += 1;
+                }
+                let name = t.split("fn ").nth(1).unwrap_or("").split(|c: char| c == '(' || c == '<').next().unwrap_or("").to_string();
+                // the arrow after the parameter list (a `where F: Fn(..) -> bool` clause may follow)
+                let ret = sig.split_once(") ->").map(|x| x.1.trim_start().to_string()).unwrap_or_default();
+                if ret.starts_with("Result<") || ret.starts_with("Option<") || name.starts_with("saturating_") || name.starts_with("wrapping_") {
+                    out.insert(format!("{}::{}", ty, name));
+                }
+            }
+        }
+    }
+    out
+}
+
 fn main() {
     let r = Report::from_args("C05");
     let quick = r.quick();
@@ -273,6 +411,27 @@ fn main() {
     if has_flag("--list") {
         for e in &cat {
             println!("{}\t{}", e.n, e.name);
+        }
+        return;
+    }
+    if has_flag("--list-api") {
+        // every scanned API item and how it is accounted for
+        let repo = std::env::var("VERIF_REPO").unwrap_or_else(|_| "/repo".to_string());
+        let names: BTreeSet<String> = cat.iter().map(|e| e.name.clone()).collect();
+        let have: BTreeSet<String> = cat.iter().map(|e| e.name.split('(').next().unwrap().to_string()).collect();
+        let also: BTreeMap<&str, &str> = catalogue::ALSO_COVERED.iter().cloned().collect();
+        let excl = catalogue::excluded();
+        for it in scan_api_items(&repo) {
+            let how = if names.contains(&it) || have.contains(&it) {
+                "catalogued".to_string()
+            } else if let Some(e) = also.get(it.as_str()) {
+                format!("exercised by entry {}", e)
+            } else if let Some(x) = excl.iter().find(|x| x.0 == it || it.rsplit("::").next().map_or(false, |f| x.0 == format!("*::{}", f))) {
+                format!("EXCLUDED: {}", x.1)
+            } else {
+                "UNCATALOGUED".to_string()
+            };
+            println!("{}\t{}", it, how);
         }
         return;
     }
@@ -341,6 +500,24 @@ fn main() {
     r.require(over.is_empty(), "every entry has <= 10^6 tuples");
     r.require(ok > 0 && err > 0, "both Ok and Err outcomes observed");
     r.require(no_ok.is_empty(), "every catalogue entry returned Ok for at least one tuple");
+    if r.only_section.is_none() {
+        use std::sync::atomic::Ordering::Relaxed;
+        let (s_ok, s_min, s_max) =
+            (catalogue::SAT_CHECKED_OK.load(Relaxed), catalogue::SAT_TO_MIN.load(Relaxed), catalogue::SAT_TO_MAX.load(Relaxed));
+        r.outcome("saturating_expected_checked_result", s_ok);
+        r.outcome("saturating_expected_min", s_min);
+        r.outcome("saturating_expected_max", s_max);
+        r.outcome("weekday_operands_beyond_i64", catalogue::WD_BEYOND_I64.load(Relaxed));
+        r.require(s_ok > 0 && s_min > 0 && s_max > 0, "saturating entries saw unsaturated results and both limits");
+        r.require(catalogue::WD_BEYOND_I64.load(Relaxed) > 0, "weekday entries saw operands whose exact sum leaves i64");
+        r.require(
+            catalogue::EXCLUDED_DOC_PANIC_INPUTS.load(Relaxed) > 0,
+            "the documented-panic inputs of the partially catalogued constructors were met and counted",
+        );
+        let nz = cat.iter().find(|e| e.name == "TimeZone::to_zoned(all-zones)").map(|e| e.n).unwrap_or(0);
+        r.count("all_zones_x_limit_datetimes", nz as u64);
+        r.require(nz >= 400 * 11, "the all-zones entries cover the bundled database (>= 400 zones)");
+    }
 
     let full_run = r.only_section.is_none() && r.only_case.is_none();
 
@@ -356,6 +533,44 @@ fn main() {
         let stale: Vec<String> = have.iter().filter(|h| !found.contains(*h)).cloned().collect();
         r.note(format!("catalogue entries that are not `pub fn -> Result` (infallible conversions, Option-returning, trait impls, iterators): {}", stale.join(", ")));
         r.require(found.len() > 100, "the source scan found the public fallible functions");
+
+        // completeness against the wider API surface: every item is catalogued,
+        // exercised by a named entry, or excluded by name with a reason
+        let items = scan_api_items(&repo);
+        let names: BTreeSet<String> = cat.iter().map(|e| e.name.clone()).collect();
+        let also: BTreeMap<&str, &str> = catalogue::ALSO_COVERED.iter().cloned().collect();
+        for (item, entry) in &also {
+            assert!(names.contains(*entry), "ALSO_COVERED: {} names a missing entry {}", item, entry);
+        }
+        let excl = catalogue::excluded();
+        let excl_names: BTreeSet<&str> = excl.iter().map(|x| x.0.as_str()).collect();
+        let is_excluded = |item: &str| {
+            excl_names.contains(item)
+                || item.rsplit("::").next().map_or(false, |f| excl_names.contains(format!("*::{}", f).as_str()))
+        };
+        let mut unc = vec![];
+        let mut n_excl = 0u64;
+        for it in &items {
+            if names.contains(it) || have.contains(it) || also.contains_key(it.as_str()) {
+                continue;
+            }
+            if is_excluded(it) {
+                n_excl += 1;
+                continue;
+            }
+            unc.push(it.clone());
+        }
+        r.count("api_items_found_by_scan", items.len() as u64);
+        r.count("api_items_excluded_by_name", n_excl);
+        r.count("api_items_uncatalogued", unc.len() as u64);
+        r.count("exclusions_by_name", excl.len() as u64);
+        r.count("inputs_excluded_as_documented_panics", catalogue::EXCLUDED_DOC_PANIC_INPUTS.load(std::sync::atomic::Ordering::Relaxed));
+        r.note(format!("API items (Result/Option fns, saturating_*/wrapping_*, operator and TryFrom impls) neither catalogued nor excluded: {}", unc.join(", ")));
+        r.note(format!(
+            "excluded by name (documented panics, parsers): {}",
+            excl.iter().map(|x| format!("{} [{}]", x.0, x.1)).collect::<Vec<_>>().join("; ")
+        ));
+        r.require(items.len() > 250, "the API scan found the operator / conversion impls");
     }
 
     // (iii) digests
